@@ -1,6 +1,7 @@
 package rules
 
 import (
+	"go/token"
 	"strings"
 
 	"gldapverif/an"
@@ -36,10 +37,18 @@ func checkC19(c *Ctx) {
 	R.Analysed = append(R.Analysed, fname(h))
 
 	// ---- the response object and its default
+	// (built at the top of the handler and adjusted with SetResultCode, or built in the deferred function from a
+	// local result-code variable the handler assigns)
 	var newResp *ssa.Call
-	for _, ci := range an.Calls(h) {
-		if call, ok := ci.(*ssa.Call); ok && an.CalleeIs(ci.Common(), G, "(*Request).NewBindResponse") {
-			newResp = call
+	for _, f := range an.WithClosures(h) {
+		for _, ci := range an.Calls(f) {
+			if call, ok := ci.(*ssa.Call); ok && an.CalleeIs(ci.Common(), G, "(*Request).NewBindResponse") {
+				if newResp != nil {
+					R.Fail("C19-default", fname(h)+": response created with NewBindResponse", c.pos(call), "more than one NewBindResponse call")
+					return
+				}
+				newResp = call
+			}
 		}
 	}
 	if newResp == nil {
@@ -50,28 +59,111 @@ func checkC19(c *Ctx) {
 	invalid, _ := c.P.ConstInt(G, "ResultInvalidCredentials")
 	success, _ := c.P.ConstInt(G, "ResultSuccess")
 	defCode := int64(-1)
+	var codeCell *ssa.Alloc // the local result-code variable, when the code is carried that way
+	var codeInit *ssa.Store
 	if list, ok := S.variadicOptions(newResp.Common().Args[1]); ok {
 		for _, o := range list {
-			if o.Ctor.Fn.Name() == "WithResponseCode" {
-				defCode, _ = an.IntConst(o.Args[0])
+			if o.Ctor.Fn.Name() != "WithResponseCode" {
+				continue
+			}
+			if k, isK := an.IntConst(o.Args[0]); isK {
+				defCode = k
+			} else if ld, isLd := an.StripConv(an.Strip(o.Args[0])).(*ssa.UnOp); isLd && ld.Op == token.MUL {
+				if al, isAl := an.CellRoot(ld.X).(*ssa.Alloc); isAl && al.Parent() == h {
+					codeCell = al
+				}
 			}
 		}
 	}
-	R.Check(defCode == invalid && invalid == 49 && an.Strip(newResp.Common().Args[0]) == ssa.Value(h.Params[1]), "C19-default", fname(h)+": default result is invalidCredentials", c.pos(newResp),
+	if codeCell != nil {
+		sts, esc := an.CellStores(codeCell)
+		okCell := !esc
+		for _, st := range sts {
+			if _, isK := an.IntConst(st.Val); !isK {
+				okCell = false
+			}
+			// the initial value: assigned in the handler itself before anything else can assign or leave
+			if st.Parent() == h {
+				first := true
+				for _, o := range sts {
+					if o != st && o.Parent() == h && !an.InstrDominates(st, o) {
+						first = false
+					}
+				}
+				for _, ret := range an.Returns(h) {
+					if !an.InstrDominates(st, ret) {
+						first = false
+					}
+				}
+				if first && codeInit == nil {
+					codeInit = st
+				}
+			}
+		}
+		if !okCell || codeInit == nil {
+			R.Fail("C19-default", fname(h)+": default result is invalidCredentials", c.pos(newResp), "the result code variable given to NewBindResponse is not a local assigned only constants, with an initial value set before anything else")
+			return
+		}
+		defCode, _ = an.IntConst(codeInit.Val)
+	}
+	reqOK := an.Strip(newResp.Common().Args[0]) == ssa.Value(h.Params[1])
+	R.Check(defCode == invalid && invalid == 49 && reqOK, "C19-default", fname(h)+": default result is invalidCredentials", c.pos(newResp),
 		"r.NewBindResponse(WithResponseCode(49))", sprintf("the bind response does not start as invalidCredentials for this request (default code %d)", defCode))
-	// SetResultCode sites
+	// sites that set the result code: SetResultCode on the response (directly, or in a helper that does it
+	// unconditionally on a parameter bound to the response), or a constant assigned to the result-code variable
 	isSet := func(in ssa.Instruction) (int64, bool, bool) { // (code, const, isSet)
+		if st, ok := in.(*ssa.Store); ok && codeCell != nil && an.CellRoot(st.Addr) == ssa.Value(codeCell) {
+			k, isK := an.IntConst(st.Val)
+			return k, isK, true
+		}
 		ci, ok := in.(ssa.CallInstruction)
-		if !ok || !an.CalleeIs(ci.Common(), G, "(*baseResponse).SetResultCode") {
+		if !ok {
 			return 0, false, false
 		}
-		k, isK := an.IntConst(ci.Common().Args[1])
-		return k, isK, true
+		if an.CalleeIs(ci.Common(), G, "(*baseResponse).SetResultCode") {
+			k, isK := an.IntConst(ci.Common().Args[1])
+			return k, isK, true
+		}
+		if g := an.StaticCallee(ci.Common()); g != nil && an.InModule(g) && len(g.Blocks) > 0 && isCall(ci) {
+			var the ssa.CallInstruction
+			n := 0
+			for _, ic := range an.Calls(g) {
+				if an.CalleeIs(ic.Common(), G, "(*baseResponse).SetResultCode") {
+					n++
+					the = ic
+				}
+			}
+			if n == 1 && isCall(the) {
+				uncond := true
+				for _, ret := range an.Returns(g) {
+					if !an.InstrDominates(the, ret) {
+						uncond = false
+					}
+				}
+				// the receiver is a parameter of the helper that the call binds to the response
+				bound := false
+				if recv, _ := an.FieldChain(the.Common().Args[0]); recv != nil {
+					for i, p := range g.Params {
+						if an.Strip(recv) == ssa.Value(p) && i < len(ci.Common().Args) && an.Strip(ci.Common().Args[i]) == ssa.Value(newResp) {
+							bound = true
+						}
+					}
+				}
+				if bound {
+					k, isK := an.IntConst(the.Common().Args[1])
+					return k, isK && uncond, true
+				}
+			}
+		}
+		return 0, false, false
 	}
 	for _, f := range an.WithClosures(h) {
 		an.Instrs(f, func(in ssa.Instruction) {
+			if in == ssa.Instruction(codeInit) && codeInit != nil {
+				return
+			}
 			if k, isK, is := isSet(in); is {
-				R.Check(isK && k == success, "C19-default", fname(h)+": only success is ever set explicitly", c.pos(in), "SetResultCode(ResultSuccess)", "a result code other than success/invalidCredentials is produced")
+				R.Check(isK && k == success, "C19-default", fname(h)+": only success is ever set explicitly", c.pos(in), "the result code is set to ResultSuccess", "a result code other than success/invalidCredentials is produced (or the code is set conditionally inside a helper)")
 			}
 		})
 	}
